@@ -65,8 +65,11 @@ class Profiles:
         'name': r'{nmchar}+',
         'nmstart': r'[_a-z]|{nonascii}|{escape}',
         'nonascii': r'[^\0-\177]',
-        'unicode': r'\\[0-9a-f]{1,6}(\r\n|[ \n\r\t\f])?',
-        'escape': r'{unicode}|\\[ -~\u0080-\u01ff]',
+        # (unambiguous, so that a value which does not match cannot be tried
+        # in exponentially many ways: all the digits of a hex escape, and no
+        # hex digit as simple escape)
+        'unicode': r'\\(?:[0-9a-f]{6}|[0-9a-f]{1,5}(?![0-9a-f]))(\r\n|[ \n\r\t\f])?',
+        'escape': r'{unicode}|\\(?![0-9a-f])[ -~\u0080-\u01ff]',
         #   'escape': r'{unicode}|\\[ -~\200-\4177777]',
         'int': r'[-]?\d+',
         # (unambiguous: a non-ASCII letter is taken by \w only)
@@ -75,9 +78,11 @@ class Profiles:
         'positivenum': r'\d+|\d*\.\d+',
         'number': r'{num}',
         'string': r'{string1}|{string2}',
-        'string1': r'"(\\\"|[^\"])*"',
-        'uri': r'url\({w}({string}|(\\\)|[^\)])+){w}\)',
-        'string2': r"'(\\\'|[^\'])*'",
+        # (a backslash always takes the next character with it; a quoted URL
+        # is a string only)
+        'string1': r'"(\\[\s\S]|[^\\"])*"',
+        'uri': r'url\({w}({string}|(?![\'"])(\\[\s\S]|[^\\\)])+){w}\)',
+        'string2': r"'(\\[\s\S]|[^\\'])*'",
         'nl': r'\n|\r\n|\r|\f',
         'w': r'\s*',
     }
